@@ -161,6 +161,7 @@ fn run_case(case: &J) -> J {
             };
             let (st, load, site, msg) = new_story(text);
             let mut audit = J::Null;
+            let mut audit_site: Option<String> = None;
             if case.get("want_audit").and_then(|x| x.as_bool()).unwrap_or(false)
                 && let Some(s) = st.as_ref()
             {
@@ -169,13 +170,14 @@ fn run_case(case: &J) -> J {
                     Ok(v) => json!(v),
                     Err(_) => json!("panic"),
                 };
-                let _ = take_loc();
+                let (l, m) = take_loc();
+                audit_site = Some(format!("{l} {m}"));
             }
             // dropping a story must not crash either
             drop(st);
             drop(parsed);
             json!({"id": id, "parse": parse, "load": load, "site": site, "msg": msg, "doc": doc, "depth": d,
-                   "audit": audit})
+                   "audit": audit, "audit_site": audit_site})
         }
         "save" => {
             let story = case.get("story").and_then(|x| x.as_str()).unwrap_or("");
